@@ -113,6 +113,10 @@ def _plan(draw, max_len):
     # further helpers on the same column as later summaries of the same aggregate call
     extra = draw(st.lists(st.sampled_from(["first", "last", "nth1", "count", "min", "max"]), max_size=2, unique=True))
     plan = {"kind": kind, "helper": h, "vals": vals, "groups": groups, "args": args, "extra": extra}
+    if h in ("median", "quantile", "min", "max", "nth") and kind == "f" and draw(st.integers(0, 2 if h == "median" else 7)) == 0:
+        plan.update(vals=[1.0], groups=[0], scrambled=[draw(st.sampled_from([512, 514, 1024, 1500, 2048, 2050])),
+                                                       draw(st.integers(1, 2000)) * 2 + 1, draw(st.integers(0, 4000))])
+        plan["args"] = {k: v for k, v in args.items() if k in ("q", "index")}
     if draw(st.integers(0, 3)) == 0:
         plan["reuse"] = draw(st.sampled_from([1, 1, 2]))
     return plan
@@ -268,6 +272,21 @@ def _call_grp(h, args):
 
 
 def check(plan, ctx):
+    if plan.get("scrambled"):
+        # long columns (512 to 2 050 elements, even and odd) of all-distinct values in scrambled order, several per case:
+        # order statistics that select instead of sorting go wrong on a small share of such inputs only
+        n, a, c = plan["scrambled"]
+        m = 4099                                     # a prime beyond every n drawn
+        ctx.cls("long_scrambled_columns")
+        for k in range(8):
+            vals = [(((i + 1) * (a + 2 * k) + c + 31 * k) % m) / 8.0 for i in range(n - (k % 2))]
+            groups = [0] * len(vals) if k < 6 else [i % 2 for i in range(len(vals))]
+            _check(dict(plan, vals=vals, groups=groups, scrambled=None), ctx)
+        return
+    _check(plan, ctx)
+
+
+def _check(plan, ctx):
     h, kind, vals, groups, args = plan["helper"], plan["kind"], plan["vals"], plan["groups"], plan["args"]
     ctx.cls("helper_" + h, "kind_" + kind)
     if not ambiguous(h, kind, vals, args):
